@@ -1504,7 +1504,13 @@ ClientHttpRequest::checkForInternalAccess()
     if (!internalCheck(request->url.path()))
         return;
 
-    if (request->url.port() == getMyPort() && internalHostnameIs(SBuf(request->url.host()))) {
+    // Only http(s) URLs can address this proxy's internal objects. Other schemes (e.g., ftp://user@us:port/...)
+    // keep their user-info in the effective request URI, where a decoded "/" hides the path from URL-based
+    // ACLs such as the built-in "manager" ACL.
+    const auto scheme = request->url.getScheme();
+    const auto httpLike = (scheme == AnyP::PROTO_HTTP || scheme == AnyP::PROTO_HTTPS);
+
+    if (httpLike && request->url.port() == getMyPort() && internalHostnameIs(SBuf(request->url.host()))) {
         debugs(33, 3, "internal URL found: " << request->url.getScheme() << "://" << request->url.authority(true));
         request->flags.internal = true;
     } else if (Config.onoff.global_internal_static && internalStaticCheck(request->url.path())) {
